@@ -680,9 +680,14 @@ func (c *Ctx) c07TwoPartyCase(s *SuiteStat, g *Gen, st suite, grp, idx int, corr
 		})
 	}
 	x := new(big.Int).SetBytes(xb)
-	rnd := g.kdRandBuf(256 + g.intn(300))
+	// the stream is served cyclically and rand.Int reads 256 octets per draw: it must be longer than one draw and
+	// its second draw must not be small again, or GenerateRandomNumber would (rightly) never return
+	rnd := g.kdRandBuf(300 + g.intn(256))
 	if idx%5 == 0 { // first draw too small: the loop must draw again
 		copy(rnd, make([]byte, 240))
+		if rnd[256] == 0 {
+			rnd[256] = 1
+		}
 	}
 	caseText := fmt.Sprintf("two-party grp=%d %s x=%s rnd=%s", grp, kdIkeLine("ikekeys", st, in.nonce, nil, in.spiI, in.spiR), hx(xb), hx(rnd))
 	setCase(caseText)
